@@ -26,10 +26,13 @@ def reg(pid, category, text, note, technique, design_ref):
 reg("C17", "exploration",
     "Hypothesis-generated multi-chromosome discovery scenarios run through the real pipeline; an output-only oracle "
     "checks id uniqueness, reference-id collisions and that exon_id is an injective function of (chr,start,end,strand) "
-    "across both GTFs, including a two-run history that feeds IsoQuant's own annotation back as --genedb. Held on "
+    "across both GTFs, including a two-run history that feeds IsoQuant's own annotation back as --genedb; the id "
+    "distributors are also driven in isolation (Hypothesis and coverage-guided through atheris) over generated "
+    "reference id strings in a real in-memory gffutils database with a string-level collision oracle. Held on "
     "everything explored; not a proof.",
     "Trusts pysam for writing BAMs and the GTF parser of the harness; reads are synthetic alignments.",
-    "property-based testing (Hypothesis) with output-recount oracle; stateful two-step history", "DESIGN.md section 4 C17")
+    "property-based testing (Hypothesis) with output-recount oracle; stateful two-step history; coverage-guided "
+    "fuzzing (atheris) of the id distributors", "DESIGN.md section 4 C17")
 
 reg("C19", "exploration",
     "Exhaustive enumeration of every sorted interval list (and pair of lists) over a small universe plus Hypothesis "
@@ -37,20 +40,21 @@ reg("C19", "exploration",
     "three-valued (MUST present / MUST absent / unspecified). Exhaustive for the bounded universe, sampled beyond it.",
     "Semantics taken from docstrings and callers; features no longer than delta and read gaps no longer than delta are "
     "outside the domain (see DESIGN.md section 8).",
-    "exhaustive small-universe enumeration + property-based testing (Hypothesis) against a reference model",
+    "exhaustive small-universe enumeration + property-based testing (Hypothesis) + coverage-guided fuzzing (atheris/libFuzzer driving the same strategies) against a reference model",
     "DESIGN.md section 4 C19")
 
 reg("C03", "exploration",
     "Hypothesis-generated scenarios (with/without annotation, noise, all model strategies and data types) run through "
     "the real pipeline; a validity predicate over transcript_models.gtf and extended_annotation.gtf (exon order, "
-    "overlap, bounds, transcript/gene records, reference transcripts verbatim, extended = reference + novel).",
-    "Trusts the harness GTF parser and pysam-written BAMs; loci deeper than the region-splitting thresholds are covered "
-    "by the C05/C13 deep-locus generators.",
+    "overlap, bounds, transcript/gene records, reference transcripts verbatim, extended = reference + novel); a second "
+    "stage runs loci that are processed in several regions with a reference gene lying across a split point.",
+    "Trusts the harness GTF parser and pysam-written BAMs.",
     "property-based testing (Hypothesis) with validity-predicate oracle over outputs", "DESIGN.md section 4 C03")
 reg("C04", "exploration",
     "Hypothesis-generated discovery scenarios with intron-graph noise; recount oracle: every novel intron occurs in a "
     "corrected read of that chromosome, supporting reads exist, .nic/.nnic labels match the annotation, intron chains "
-    "are unique per strand, annotation-free runs report only novel_gene_* genes.",
+    "are unique per strand, annotation-free runs report only novel_gene_* genes; a second stage puts an unannotated "
+    "gene across a split point of a locus processed in several regions.",
     "One known finding (mono-intron models differing only in polyA site) is listed in known_findings.jsonl.",
     "property-based testing (Hypothesis) with recount oracle over outputs and inputs", "DESIGN.md section 4 C04")
 
@@ -65,7 +69,8 @@ reg("C13", "exploration",
 reg("C14", "exploration",
     "Hypothesis-generated reads with alignment artefacts under all six splice-correction strategies (and an "
     "annotation-free stage with generated short-read BAMs); BED12 validity predicate plus a provenance oracle for "
-    "every corrected splice site and read end.",
+    "every corrected splice site and read end (ends may move only as the terminal corrections enabled by the "
+    "strategy allow: to a boundary of the read's own blocks when only fake-terminal-exon removal is enabled).",
     "Original alignment = exons column of read_assignments.tsv (after polyA-exon trimming, which C16 checks).",
     "property-based testing (Hypothesis) with validity predicate + provenance oracle", "DESIGN.md section 4 C14")
 
@@ -90,7 +95,8 @@ reg("C09", "exploration",
 
 reg("C05", "exploration",
     "Hypothesis-generated coverage templates aimed at the region-splitting arithmetic (32-kb / 1024-read thresholds, "
-    "256-bp bins, valleys, last-bin valleys, short reads at sub-region edges) in both memory modes, plus flag/MAPQ "
+    "256-bp bins, valleys, last-bin valleys, short reads at sub-region edges, sparse genes longer than two splitting "
+    "windows whose reads are processed in >= 3 regions) in both memory modes, plus flag/MAPQ "
     "mixtures; a three-valued accounting oracle computed from BAM flags only (MUST / MUST-NOT / MAY be reported), "
     "identical-record detection and log statistics versus BAM record counts.",
     "Filters as documented in docs/cmd.md; reads with other alignments are MAY; two repaired defects and one known "
@@ -115,7 +121,7 @@ reg("C16", "exploration",
     "PolyAFinder/PolyAFixer with validity + projection oracle for the trimmed exon list and tail positions.",
     "Segments without an aligned base are UNSPECIFIED; cigar-operation index blocks are outside the statement and not "
     "checked; one repaired defect (shift_polya) listed as fixed.",
-    "exhaustive bounded enumeration + property-based testing (Hypothesis) against a reference model",
+    "exhaustive bounded enumeration + property-based testing (Hypothesis) + coverage-guided fuzzing (atheris/libFuzzer driving the same strategies) against a reference model",
     "DESIGN.md section 4 C16")
 
 reg("C15", "exploration",
@@ -126,7 +132,7 @@ reg("C15", "exploration",
     "from --read_assignments and all outputs compared.",
     "Readers are driven through a strict byte stream that refuses short reads (a misaligned reader stops instead of "
     "looping); two repaired defects listed as fixed.",
-    "property-based testing (Hypothesis) incl. stateful rule-based machine; round-trip + differential oracles",
+    "property-based testing (Hypothesis) incl. stateful rule-based machine, coverage-guided fuzzing (atheris/libFuzzer) of the object round-trip; round-trip + differential oracles",
     "DESIGN.md section 4 C15")
 
 reg("C08", "exploration",
@@ -153,9 +159,12 @@ reg("C01", "exploration",
 reg("C06", "exploration",
     "Hypothesis-generated multi-chromosome scenarios (groups, multi-mappers, shared exons, novel isoforms) are run "
     "twice as separate `python isoquant.py` processes whose configurations differ in --threads, PYTHONHASHSEED, "
-    "--high_memory, --keep_tmp or nothing; every output file must be byte-identical modulo the command-line header.",
-    "Worker completion order is varied only through thread counts and load (not enumerated); one repaired defect "
-    "(hash-order of gene ids) listed as fixed.",
+    "--high_memory, --keep_tmp or nothing; every output file must be byte-identical modulo the command-line header. "
+    "Stage deep_pairs does the same for loci cut into several processing regions (with/without --high_memory); stage "
+    "workers replaces the process pool by a harness-owned one in which the assignment of per-chromosome tasks to "
+    "persistent worker processes is a generated value and compares every assignment with the --threads 1 run.",
+    "The harness-owned pool executes one task at a time (per-chromosome tasks write disjoint files); one repaired "
+    "defect (hash-order of gene ids) listed as fixed.",
     "property-based testing (Hypothesis) with differential (metamorphic) oracle over configuration pairs",
     "DESIGN.md section 4 C06")
 
@@ -163,7 +172,9 @@ reg("C12", "exploration",
     "Each Hypothesis-generated scenario is run as baseline and in a drawn equivalent representation: annotation as "
     ".gtf / .gtf.gz / pre-built .db, --complete_genedb or inferred, fresh / reused / --clean_start conversion cache "
     "(all outputs must be identical modulo header), or the same records partitioned into 2-4 BAM files (read "
-    "assignments, corrected reads and ungrouped reference-based tables equal as multisets).",
+    "assignments, corrected reads and ungrouped reference-based tables equal as multisets). Stage history runs 3-6 "
+    "invocations that share one HOME over two different annotations with the same file name, reused output folders, "
+    "in-place swaps and --clean_start; every run must equal a fresh-HOME run of the same content.",
     "Pre-built databases are made with the repository's own src/gtf2db.py; BAM partition compares only the files the "
     "statement lists.",
     "property-based testing (Hypothesis) with differential (metamorphic) oracle over input representations",
@@ -171,10 +182,11 @@ reg("C12", "exploration",
 
 reg("C10", "exploration",
     "Hypothesis-generated sequences of 2-4 experiments (shared, disjoint and overlapping data; 1-2 files each) are run "
-    "jointly from a YAML or list file in a drawn order with 1/2/4 threads; every experiment is also run alone; the "
+    "jointly from a YAML or list file in a drawn order with 1/2/4 threads (experiments differ in reads, number of "
+    "unaligned reads and polyA content); every experiment is also run alone; the "
     "per-experiment directories must contain the same files with the same bytes (modulo header) and the combined_* "
     "tables must carry exactly the per-experiment columns.",
-    "Stand-alone reference = one-experiment YAML/list with the same name and options; two repaired defects listed as "
+    "Stand-alone reference = one-experiment YAML/list with the same name and options; four repaired defects listed as "
     "fixed.",
     "property-based testing (Hypothesis) over operation sequences with differential oracle (joint vs stand-alone)",
     "DESIGN.md section 4 C10")
@@ -184,7 +196,8 @@ reg("C11", "exploration",
     "alignments: translation by k bases (every output file must equal the original with k added to every coordinate, "
     "including event payloads) or reverse complement (per read: type, isoform set, mirrored exons, flipped strand and "
     "left/right-swapped event names; reference-based tables; exon/intron tables; for noise-free inputs with "
-    "well-separated junctions the mirrored set of transcript models with counts).",
+    "well-separated junctions the mirrored set of transcript models with counts). Stage split_shift translates loci "
+    "above the region-splitting thresholds by multiples of the 256-bp bin.",
     "Reads whose tail lies within 2 bp of a tail-distance threshold are compared separately (known finding: polyT "
     "position convention, pinned by the repository's tests); inherent ties (both terminal blocks shorter than the "
     "fake-exon bound) and near-identical junctions are UNSPECIFIED; five repaired defects listed as fixed.",
@@ -194,7 +207,7 @@ reg("C11", "exploration",
 reg("C07", "fault_enumeration",
     "For every Hypothesis-generated scenario and option set the harness lists all file-system mutation points of the "
     "main process after .params is saved (file creation, append-open, removal, directory and database creation; "
-    "70-300 points per scenario) and, for every point, kills the run before (quick) or before and after (thorough) "
+    "70-300 points per scenario) and, for every point, kills the run once before and once after "
     "the mutation, resumes it with --resume and compares every final output with an uninterrupted run: the resumed "
     "run must exit 0 with identical files. Exhaustive per scenario.",
     "Crash model: os._exit at Python-level mutations of the main process with --threads 1 (unflushed buffers lost); "
